@@ -1254,7 +1254,8 @@ class OFConnection (object):
         message = self.io_worker.peek()
         err = ofp_error(type=OFPET_BAD_REQUEST, code=OFPBRC_BAD_TYPE)
         err.xid = self._extract_message_xid(message)
-        err.data = message[:message_length]
+        # Quote as much of the request as still fits into one message
+        err.data = message[:min(message_length, 0xffff - len(err))]
         self.send(err)
       elif reason == OFConnection.ERR_BAD_LENGTH:
         msg_obj, message_length, new_offset = info
@@ -1264,7 +1265,8 @@ class OFConnection (object):
         message = self.io_worker.peek()
         err = ofp_error(type=OFPET_BAD_REQUEST, code=OFPBRC_BAD_LEN)
         err.xid = self._extract_message_xid(message)
-        err.data = message[:message_length]
+        # Quote as much of the request as still fits into one message
+        err.data = message[:min(message_length, 0xffff - len(err))]
         self.send(err)
       elif reason == OFConnection.ERR_EXCEPTION:
         ex, raw_message, msg_obj = info
